@@ -147,8 +147,9 @@ def val(d):
 class VBase:
     """time-stepped harness component; publishes its own time (hours) on every output"""
 
-    def __init__(self, name, menu, fixed=None, ins=(), outs=(), start=0, pull_initial=True, finish_at=None, late_time=False):
+    def __init__(self, name, menu, fixed=None, ins=(), outs=(), start=0, pull_initial=True, finish_at=None, late_time=False, reject_at=()):
         super().__init__()
+        self.reject_at = tuple(reject_at)  # hours at which the component hands in data that the output refuses; it catches the error and goes on
         self.late_time = late_time  # the component learns its time only while connecting (time is None before)
         self.finish_at = finish_at  # the component declares itself FINISHED once it reached this time (hours)
         self.declared_finished = False
@@ -219,6 +220,12 @@ class VBase:
             w.on_pull(self, n, hrs(nt), val(d))
         self._time = nt
         for n in self.outs:
+            if float(hrs(self._time)) in self.reject_at:
+                try:
+                    self.outputs[n].push_data(np.zeros(3), self.time)  # wrong shape for a slot without grid
+                except E.FinamDataError:
+                    w.stats["rejected_pushes"] += 1
+                continue
             self.outputs[n].push_data(self.value(), self.time)
         if self.finish_at is not None and hrs(self._time) >= self.finish_at:
             self.status = CS.FINISHED
@@ -404,7 +411,7 @@ class Run:
         self.comps = {}
         for c in cfg["comps"]:
             if c["kind"] == "T":
-                self.comps[c["name"]] = (IVComp if c.get("own_clock") else VComp)(c["name"], c.get("menu", [1]), c.get("fixed"), c.get("ins", ()), c.get("outs", ()), c.get("start", 0), c.get("pull_initial", True), c.get("finish_at"), c.get("late_time", False))
+                self.comps[c["name"]] = (IVComp if c.get("own_clock") else VComp)(c["name"], c.get("menu", [1]), c.get("fixed"), c.get("ins", ()), c.get("outs", ()), c.get("start", 0), c.get("pull_initial", True), c.get("finish_at"), c.get("late_time", False), c.get("reject_at", ()))
             else:
                 self.comps[c["name"]] = PComp(c["name"], c.get("ins", ()), c.get("outs", ()), slot_time=self.t_start)
         self.links = [Shared(l) for l in cfg["links"]]
